@@ -40,6 +40,11 @@ type staticPodLister struct{ pods []*v1.Pod }
 func (l staticPodLister) List(labels.Selector) ([]*v1.Pod, error)       { return l.pods, nil }
 func (l staticPodLister) Pods(string) v1lister.PodNamespaceLister       { panic("unused") }
 
+type swapPodLister struct{ pods []*v1.Pod }
+
+func (l *swapPodLister) List(labels.Selector) ([]*v1.Pod, error) { return l.pods, nil }
+func (l *swapPodLister) Pods(string) v1lister.PodNamespaceLister { panic("unused") }
+
 type staticNodeLister struct{ nodes []*v1.Node }
 
 func (l staticNodeLister) List(labels.Selector) ([]*v1.Node, error) { return l.nodes, nil }
@@ -159,21 +164,29 @@ func runC14(tier string, seed int64, si, sn int, rep *monitor.Report, note func(
 	}
 	evals := 0
 	var batch []*v1.Pod
+	// long-lived listers, as in the running controller: every batch is served through the same two listers, and
+	// every batch reuses the pod names of the previous one (a pod deleted and recreated under its name)
+	backing := &swapPodLister{}
+	longLived := map[string]*controller.NodeGroupLister{}
+	for _, c := range []*oracle.Cfg{cfg, def} {
+		opts := controller.NodeGroupOptions{Name: c.Name, LabelKey: c14Key, LabelValue: c14Val}
+		if c.IsDefault() {
+			longLived[c.Name] = controller.NewDefaultNodeGroupLister(backing, staticNodeLister{nil}, opts)
+		} else {
+			longLived[c.Name] = controller.NewNodeGroupLister(backing, staticNodeLister{nil}, opts)
+		}
+	}
 	flush := func() {
 		if len(batch) == 0 {
 			return
 		}
 		// the filtered listers built by the real constructors must return exactly the expected subset, in order
-		pl := staticPodLister{batch}
-		nl := staticNodeLister{nil}
+		for i, p := range batch {
+			p.Name = fmt.Sprintf("slot-%d", i)
+		}
+		backing.pods = batch
 		for _, c := range []*oracle.Cfg{cfg, def} {
-			opts := controller.NodeGroupOptions{Name: c.Name, LabelKey: c14Key, LabelValue: c14Val}
-			var lister *controller.NodeGroupLister
-			if c.IsDefault() {
-				lister = controller.NewDefaultNodeGroupLister(pl, nl, opts)
-			} else {
-				lister = controller.NewNodeGroupLister(pl, nl, opts)
-			}
+			lister := longLived[c.Name]
 			got, err := lister.Pods.List()
 			if err != nil {
 				rep.Violate(P, "lister-error", "filtered pod lister of group %s failed: %v", c.Name, err)
@@ -193,7 +206,7 @@ func runC14(tier string, seed int64, si, sn int, rep *monitor.Report, note func(
 				rep.Violate(P, "filtered-lister-mismatch:"+c.Name, "filtered pod lister of group %q returned %d pods, the documented rule selects %d of %d", c.Name, len(got), len(want), len(batch))
 			}
 		}
-		batch = batch[:0]
+		batch = nil
 	}
 	idx := 0
 	for _, sel := range c14Selectors() {
